@@ -68,6 +68,9 @@ CallAgain == /\ vis = Len(wire) /\ vis > 0 /\ verdict = "more"
              /\ UNCHANGED <<wire, vis, cfg, prev, na>>
 NextA == Send \/ Call \/ CallAgain
 SpecA == Init /\ [][NextA]_vars
+\* Also beyond the listed properties: while the parser asks for more bytes its continuation offset never moves
+\* backwards (the caller may discard what lies before it).  An action property: [][...]_vars.
+MonotoneCont == [][(verdict' = "more" /\ vis' > 0) => cont' >= cont]_vars
 Idempotent == (vis = Len(wire) /\ vis > 0 /\ verdict = "more") =>
                 LET r == P_Call(wire, cont, obj, cfg) IN r.err = "more" /\ r.offs = cont /\ r.st = obj
 
